@@ -71,6 +71,16 @@ namespace
         Nest(std::initializer_list<Nest> l) : v(-1), kids(l) {}
     };
     int val_of(const Nest &t) { return t.kids.empty() ? t.v : -100000 - (int)t.kids.size(); }
+    // trivially copyable, but value-initialisation is not all-zero bytes (default member initialisers): resize() must create T{}
+    struct Dflt
+    {
+        int v = 42;
+        short mark = 7;
+        Dflt() = default;
+        Dflt(int x) : v(x) {}
+    };
+    static_assert(std::is_trivially_copyable<Dflt>::value, "Dflt must be trivially copyable");
+    int val_of(const Dflt &t) { return t.mark == 7 ? t.v : -4242; }
     // an element with an extended alignment: every slot of the inline storage must be aligned for it
     struct alignas(32) Wide32
     {
@@ -276,7 +286,7 @@ namespace
                 R.guard = true;
                 x.resize(n);
                 R.guard = false;
-                mx.resize(std::min(n, N), 0);
+                mx.resize(std::min(n, N), val_of(E())); // new elements are value-initialised
                 if (mx.size() <= old) expect_destroyed(w, h0, old - mx.size(), "resize");
                 break;
             }
@@ -532,7 +542,11 @@ namespace
                 if (len == 2 * N) probe("ctor_2N_elements");
                 x->~SS();
 #ifdef C14_TWIN
-                if (k == T_CTOR_PTR_N) x = new (mem) SS(src, len);
+                // a count far beyond the source (npos handed on as a length, a 33-bit count): legal as long as the source holds at
+                // least N characters, the prefix that fits is kept
+                static const size_t huge[4] = {(size_t)-1, (size_t)-1 / 2 + 1, ((size_t)1 << 32) + 3, (size_t)-2};
+                if (k == T_CTOR_PTR_N && len >= N && val % 3 == 0) { x = new (mem) SS(src, huge[(val / 3) % 4]); probe("count_near_SIZE_MAX"); }
+                else if (k == T_CTOR_PTR_N) x = new (mem) SS(src, len);
                 else x = new (mem) SS(src);
 #else
                 x = new (mem) SS(src);
@@ -699,11 +713,12 @@ int main(int argc, char **argv)
     SVWorld<UCell, false> wu(PARTNAME "static_vector<union element with a destructor>", false);
     SVWorld<Wide32, false> ww(PARTNAME "static_vector<element aligned to 32 bytes>", false);
     SVWorld<Nest, false> wnest(PARTNAME "static_vector<value constructible from a list of itself>", false);
+    SVWorld<Dflt, false> wdflt(PARTNAME "static_vector<trivially copyable element with default member initialisers>", false);
     SSWorld ws;
     Harness h;
     h.property = "C14";
     BigCapWorld wbig;
-    h.worlds = {&wi, &wt, &ws, &wh, &wy, &wu, &wbig, &ww, &wnest};
+    h.worlds = {&wi, &wt, &ws, &wh, &wy, &wu, &wbig, &ww, &wnest, &wdflt};
 #ifdef C14_TWIN
     h.real = {"igris/container/std_portable.h (static_vector, static_string twins)"};
 #else
